@@ -27,6 +27,8 @@ BOUNDS = {
     "pep440_display": "5 SemVer and 5 PEP 440 sample versions",
     "resolve_barrier": "15 texts (incl. non-ASCII, fullwidth, whitespace) x 19 variables x 2 presets",
     "sanitize_uint_claim": "see sanitize",
+    "semver_from_zerv": "119 valid schemas (8 core x 5 extra-core x 3 build lists mixing var / str / uint components, incl. values that split into several identifiers, sanitise to nothing, or overflow u32) x 324 variable assignments; SemVer::from(Zerv).to_string() against an oracle written from the statement",
+    "pep440_from_zerv": "the same 119 schemas x 324 assignments; PEP440::from(Zerv).to_string() against an oracle written from the statement",
     "template_functions": "prefix / hash / hash_int / prefix_if / sanitize on 10 values (incl. multi-byte) x lengths {0,1,2,3,7,30}; format_timestamp on 4 instants x 10 formats incl. invalid ones — rendered through the real Tera engine",
 }
 
